@@ -237,7 +237,7 @@ class Run:
         return out
 
 
-def drive_to_end(run, rng, fail=(), hang_s=None, order='random', max_s=120, hold_s=0.0):
+def drive_to_end(run, rng, fail=(), hang_s=None, order='random', max_s=120, hold_s=0.0, prefer=None):
     """Releases gated builds (in a random order, failing those in `fail`) until the process exits or hangs.
     Returns 'exited' | 'hung' | 'alive-idle' (idle with nothing pending; caller decides whether that is expected)."""
     hang_s = HANG_S if hang_s is None else hang_s
@@ -253,7 +253,20 @@ def drive_to_end(run, rng, fail=(), hang_s=None, order='random', max_s=120, hold
             held = True
             continue
         if pend:
-            if order == 'random':
+            if prefer:
+                # replay: follow the recorded completion order as far as it applies (wait a little for the expected one)
+                nxt = [x for x in prefer if run.released.get(x, 0) == 0]
+                t = None
+                if nxt:
+                    t1 = time.time()
+                    while time.time() - t1 < 0.5 and nxt[0] not in run.pending() and run.poll() is None:
+                        time.sleep(0.005)
+                    pend = run.pending() or pend
+                    if nxt[0] in pend:
+                        t = nxt[0]
+                if t is None:
+                    t = sorted(pend)[0]
+            elif order == 'random':
                 # let concurrent starts accumulate a little so that the choice is a real one (not a verdict)
                 time.sleep(rng.choice([0, 0, 0.002, 0.01]))
                 pend = run.pending()
